@@ -6,6 +6,8 @@
 #include "vf.h"
 #include "xpair.h"
 #include <sys/socket.h>
+#include <netinet/in.h>
+#include <arpa/inet.h>
 
 #include <algorithm>
 #include <pthread.h>
@@ -593,6 +595,61 @@ uint32_t pick_len(Dec &dd, bool bs, bool c03)
     }
 }
 
+// A TLS handshake that fails on a socket of its own, in the thread that also drives the pair under
+// test: a plain TCP client talks HTTP to a TLS server socket of the harness.  Nothing of it may be
+// felt by the other connections of the thread.
+Outcome bystander_tls_failure(Case &c)
+{
+    static Ep srv;
+    static int port = 0;
+    if (!srv.s) {
+        srv.tag = 90;
+        struct xcm_attr_map *m = xcm_attr_map_create();
+        xcm_attr_map_add_bool(m, "xcm.blocking", false);
+        srv.s = call(srv, [&] { return xcm_server_a("tls:127.0.0.1:0", m); });
+        xcm_attr_map_destroy(m);
+        if (!srv.s) return failf("harness: bystander TLS server: %s", errname(errno));
+        srv.closed = false;
+        const char *la = call(srv, [&] { return xcm_local_addr(srv.s); });
+        const char *colon = la ? strrchr(la, ':') : nullptr;
+        port = colon ? atoi(colon + 1) : 0;
+    }
+    int fd = socket(AF_INET, SOCK_STREAM, 0);
+    struct sockaddr_in a;
+    memset(&a, 0, sizeof(a));
+    a.sin_family = AF_INET;
+    a.sin_port = htons(port);
+    a.sin_addr.s_addr = htonl(INADDR_LOOPBACK);
+    if (connect(fd, (struct sockaddr *)&a, sizeof(a)) < 0) { close(fd); return failf("harness: bystander connect: %s", errname(errno)); }
+    const char req[] = "GET / HTTP/1.0\r\nHost: bystander\r\n\r\n";
+    if (write(fd, req, sizeof(req) - 1) < 0) {}
+    Ep acc;
+    acc.tag = 91;
+    int verdict = 0;
+    int acc_errno = 0;
+    // (the handshake is attempted inside xcm_accept already: with the request waiting it fails there)
+    for (int i = 0; i < 400 && !acc.s; i++) {
+        acc.s = call(acc, [&] { return xcm_accept(srv.s); });
+        acc_errno = errno;
+        if (!acc.s && acc_errno != EAGAIN) { verdict = acc_errno; break; }
+        if (!acc.s) usleep(500);
+    }
+    if (acc.s) {
+        acc.closed = false;
+        for (int i = 0; i < 400; i++) {
+            int rc = x_finish(acc);
+            if (rc == 0) break;
+            if (errno != EAGAIN) { verdict = errno; break; }
+            usleep(500);
+        }
+        x_close(acc);
+    }
+    close(fd);
+    c.log("bystander: a TLS handshake with a non-TLS peer failed on another socket of this thread (%s)", verdict ? errname(verdict) : acc.s ? "no verdict" : errname(acc_errno));
+    if (verdict) c.cls("tls-failure-on-another-socket-of-the-thread");
+    return Outcome::pass();
+}
+
 class Datapath : public Harness {
 public:
     const char *property() override
@@ -720,6 +777,8 @@ public:
                     c.cls("early-close");
                     x_close(sd.ep);
                 }
+            } else if (uses_tls(r.tp)) {
+                o = bystander_tls_failure(c);
             }
             if (o.ok) o = r.counters_both("after step");
         }
